@@ -97,7 +97,7 @@ def build_single(folders, rng, **kw):
             files.append((m.name, m.length, off, fi, m.date, m.time, m.attribs)); off += m.length
     return build_cab(fp, files, **kw)
 
-def build_set(folders, cuts, rng, names=None, per_part=None, **kw):
+def build_set(folders, cuts, rng, names=None, per_part=None, files_hook=None, **kw):
     """split the folders over len(cuts)+1 cabinets.  cuts: increasing list of (folder index, block index, byte offset in that block's payload):
     cabinet k ends inside that block after `offset` payload bytes (the block is split: first part has ulen 0).  Returns list of cabinet bytes."""
     for f in folders: f.prepare(rng)
@@ -148,6 +148,7 @@ def build_set(folders, cuts, rng, names=None, per_part=None, **kw):
                         reaches_next = (b > hi) and not last
                         fidx = 0xFFFF if reaches_next else 0xFFFD
                         files.append((m.name, m.length, a, fidx, m.date, m.time, m.attribs))
+        if files_hook: files = files_hook(ci, files)
         prev = (names[ci - 1], b"disk%d" % ci) if ci > 0 else None
         nxt = (names[ci + 1], b"disk%d" % (ci + 2)) if ci + 1 < ncab else None
         kw2 = dict(kw); kw2.setdefault("set_index", 0); kw2["set_index"] = ci
